@@ -186,7 +186,9 @@ class Cfg:
 def configs(kind):
     out = [Cfg("default", True, {}), Cfg("non-strict", False, {}),
            Cfg("custom-opt", True, {"custom": (STR, False), "cnum": (INT, False)}),
-           Cfg("custom-req", True, {"req": (INT, True)}), Cfg("custom-req-nonstrict", False, {"req": (LSTR, True), "custom": (BOOL, False)})]
+           Cfg("custom-req", True, {"req": (INT, True)}), Cfg("custom-req-nonstrict", False, {"req": (LSTR, True), "custom": (BOOL, False)}),
+           # the caller re-registers predefined names: kid becomes required, typ must be an int, cty a list
+           Cfg("custom-redeclare", True, {"kid": (STR, True), "typ": (INT, False)}), Cfg("custom-redeclare-nonstrict", False, {"cty": (LSTR, True)})]
     if kind == "jws":
         out += [Cfg("rfc7797", True, {}, True), Cfg("rfc7797-nonstrict", False, {}, True)]
     return out
@@ -248,6 +250,8 @@ def jws_cases(ctx, rng, cfg: Cfg, alg="HS256"):
     if rng.random() < 0.5:
         base.update(rng.choice([{"kid": "k-1"}, {"typ": "JOSE", "cty": "x"}, {"kid": "k-2", "typ": "JWT"}]))
     for n, (t, req) in cfg.custom.items():
+        if n in base and type_ok(t, base[n]) is not True:
+            del base[n]
         if req:
             base[n] = VALID_VALUE[t]
     mod = j.rfc7797 if cfg.is7797 else j.jws
@@ -325,6 +329,8 @@ def jwe_cases(ctx, rng, cfg: Cfg, alg, enc):
     if rng.random() < 0.5:
         base.update(rng.choice([{"kid": "k-1"}, {"typ": "JOSE", "cty": "x"}, {"kid": "k-2", "typ": "JWT"}]))
     for n, (t, req) in cfg.custom.items():
+        if n in base and type_ok(t, base[n]) is not True:
+            del base[n]
         if req:
             base[n] = VALID_VALUE[t]
     more, more_req = ALG_SPECIFIC[alg]
